@@ -37,8 +37,13 @@ RULE = (
     "Gaussian-integer, signed permutations, Paulis, CNOT, SWAP, diag(+-1,+-i), given as matrix or tensor; 1-3 target sites in "
     "every order incl. distant; plain / transpose / dagger. exact stream: contract False / True, gate_inds, "
     "gate_inds_with_tn, Tensor.gate, sandwich / upper / lower. oracle stream: every splitting, swapping and sub-operator mode with "
-    "cutoff=0. Non-trivial: the gate is not the identity and the state is not zero; distinct = distinct (geometry, dims, "
-    "gate class, targets, mode, options)."
+    "cutoff=0. Round 3: every (transpose, dagger) pair on every 1D mode incl. 'swap+split' / 'nonlocal' / 'auto-mps' on adjacent, "
+    "distant (both orders) and three-site targets; MPO sandwich with automatic swaps (gate_sandwich_with_auto_swap: weakly "
+    "correlated dyadic MPOs L 3-5, dagger, contract, swap_back, strip_exponent, absorb, inplace, info) and pair-splitting "
+    "sandwich / upper / lower gates; networks with their own naming (site_ind_id / site_tag_id other than 'k{}' / 'I{}') and "
+    "open / inner labels named like the library's internal labels (b, l0, l1, r0, r1, __tmp__); operators handed over as "
+    "networks (gate_with_op_lazy, gate_{upper,lower,sandwich}_with_op_lazy, apply). Non-trivial: the gate is not the "
+    "identity and the state is not zero; distinct = distinct (geometry, dims, gate class, targets, mode, options)."
 )
 
 MODES = [False, True, "split", "reduce-split", "split-gate", "swap-split-gate", "auto-split-gate",
@@ -1268,7 +1273,7 @@ def op_lazy_stream(ctx):
     import quimb.tensor as qtn
 
     TF = (False, True)
-    for n in range(ctx.n(6, 120)):
+    for n in range(ctx.n(5, 60)):
         rng = random.Random(f"{ctx.seed}:oplazy:{n}")
         st = build_weak_mpo(rng, None)
         X, sites, phys = st["tn"], st["sites"], st["phys"]
@@ -2020,6 +2025,12 @@ def run(ctx):
         "oracle contract (validated numerically on every run, tolerance 1e-9, a test): tensor_split / QR / SVD with cutoff=0 and "
         "max_bond=None return an exact factorisation; under that contract C06_gate_exact_modes_sound and C06_swap_sound cover "
         "'split', 'reduce-split', 'split-gate', 'swap-split-gate', 'swap+split', 'nonlocal'/sub-MPO",
+        "round 3: model route_opts / gate_1d_op of how gate_TN_1D hands transpose / dagger (inside **compress_opts) to each "
+        "route, with the flag nl_dagger read off gate_nonlocal's signature by introspection; tied by classifying the dense "
+        "result among G, G^T, conj G, G^dagger applied to the state (float, 1e-9) and comparing the class inside Coq. "
+        "Models sandwich_auto_swap_splits (options / absorb of every split of MatrixProductOperator.gate_sandwich_with_auto_swap, "
+        "observed by rebinding Tensor.split) and split_gate_labels (labels of the lazily attached split gate, with the bond "
+        "label the implementation used)",
         "modelled, not verified: numpy tensordot / einsum / reshape inside Tensor.gate and tensor_contract, LAPACK, "
         "tensor_network_1d_compress, MatrixProductOperator.from_dense, canonicalize; parametrized (PTensor) gates are in the "
         "model's dispatch but not exercised",
@@ -2028,6 +2039,10 @@ def run(ctx):
         "domain: target sites distinct; gate square with dims matching the physical dims of the targets in the given order; "
         "no truncation (max_bond=None, cutoff=0 or rank-revealing default on exactly low-rank gates)",
         "gate_with_auto_swap(swap_back=False): compared against the documented site permutation (j -> i+1, sites between shifted up)",
+        "naming stream: labels are arbitrary strings, so a network may use names the library hard-codes internally; the MPS routes "
+        "are only given matrix product states (extra label = a renamed bond, never a further open label). Operators handed over as "
+        "networks: sub-operators covering fewer sites are drawn for vector targets only (operator targets: the documentation asks "
+        "for 'matching structure'; tensor_network_apply_op_op renames ALL upper / lower labels of the target)",
         "gate_simple (simple update): the state is the network with the gauges inserted; cases where G annihilates the state "
         "(exactly zero result, all new singular values 0 -> 0/0) are skipped; all other streams keep zero states",
     ]
